@@ -17,6 +17,15 @@ import vlib
 
 PROPS = ["C08", "C18"]
 
+def _tlc(*a, **kw):
+    """vlib.tlc, retried once on an OS-level hiccup (spec/ is copied file by file while other files may be replaced)."""
+    try:
+        return vlib.tlc(*a, **kw)
+    except OSError as e:
+        vlib.log("  retrying TLC after %r" % e)
+        return vlib.tlc(*a, **kw)
+
+
 # ------------------------------------------------------------------------------------------ C08
 
 C08_SLICES = ["single", "pair4_0", "pair4_1", "pair4_2", "pair4_3", "pair6_0", "pair6_1", "pair6_2", "pair6_3",
@@ -44,7 +53,7 @@ def c08_generate(chk, key, slices=None):
             elif "domain" in o:
                 dom.update(o["domain"])
 
-        res = vlib.tlc(os.path.join(chk.work, "gen_%s_%s" % (key, sl)), "ConfigParseMC", _cfg_with_slices(cfgfile, [sl]),
+        res = _tlc(os.path.join(chk.work, "gen_%s_%s" % (key, sl)), "ConfigParseMC", _cfg_with_slices(cfgfile, [sl]),
                        workers=1, timeout=1500, heap="3g", json_sink=sink)
         return sl, res, snaps, dom
 
@@ -279,7 +288,7 @@ def c18_generate_load(chk, cfgfile):
 
         txt = open(os.path.join(vlib.SPEC, "cfg", cfgfile)).read()
         txt = re.sub(r"PinModes = \{[^}]*\}", 'PinModes = {"%s"}' % pm, txt) + "\n"
-        res = vlib.tlc(os.path.join(chk.work, "gen_load_" + pm), "ConfigLoadMC", txt, workers=1, timeout=1500, heap="3g",
+        res = _tlc(os.path.join(chk.work, "gen_load_" + pm), "ConfigLoadMC", txt, workers=1, timeout=1500, heap="3g",
                        json_sink=sink)
         return pm, res, snaps, perms
 
@@ -301,7 +310,7 @@ def c18_generate_load(chk, cfgfile):
     for n, o in enumerate(out):
         o["id"] = "L%d" % n
     # the loader as written (diagnostic, never a verdict): does the model of sortedCopy keep the order free?
-    res = vlib.tlc(os.path.join(chk.work, "gen_load_code"), "ConfigLoadMC", "ConfigLoadMC_code.cfg", workers=2, timeout=600,
+    res = _tlc(os.path.join(chk.work, "gen_load_code"), "ConfigLoadMC", "ConfigLoadMC_code.cfg", workers=2, timeout=600,
                    heap="2g", want_json=False)
     if res.violated:
         msg = ("model of sortedCopy AS WRITTEN (less() reads the unsorted input) violates %s: order-dependent from three "
